@@ -169,14 +169,16 @@ def dotted(opi: int, a: int, b: int, has_b: bool, fv: int, deep: bool) -> bool:
     refs = [{"source_name": "x", "n": a, "d": {"m": a}}]
     if has_b:
         refs.append({"source_name": "y", "n": b, "d": {"m": b}})
-    obj = {"type": "x", "external_references": refs, "one": {"n": a, "d": {"m": a}}}
+    obj = {"type": "x", "external_references": refs, "one": {"n": a, "d": {"m": a}}, "tags": ["t", "u"]}
     exp = ref_eval(op, a, fv) or (has_b and ref_eval(op, b, fv))
     path = "external_references.d.m" if deep else "external_references.n"
     got = _check_filter(Filter(path, op, fv), obj)
     got1 = _check_filter(Filter("one.d.m" if deep else "one.n", op, fv), obj)
     got_missing = _check_filter(Filter("external_references.zz", op, fv), obj)
+    # a path that steps INTO a scalar (a number, text, a list of text) addresses nothing: the filter does not hold, whatever the operator
+    into_scalar = [_check_filter(Filter(pth, op, fv), obj) for pth in ("one.n.x", "type.x", "one.d.m.k.j", "external_references.source_name.x", "tags.x")]
     V.reached()
-    return got == exp and got1 == ref_eval(op, a, fv) and got_missing is False
+    return got == exp and got1 == ref_eval(op, a, fv) and got_missing is False and not any(into_scalar)
 
 
 def conjunction(o1: int, v1: int, o2: int, v2: int, x: int, y: int, x2: int) -> bool:
